@@ -686,6 +686,8 @@ func checkC02(r *Run) {
 	textPipelineRule(r, "R7")
 	r.Rule("R8", "the output an exit object carries is handed on whole: the slice kept in a return/break/continue object is ranged over, spread into an append, measured, stored or passed on - never indexed by a computed index or cut", 1)
 	exitValueWholeRule(r, "R8")
+	r.Rule("R9", "what the lexer produced is what is parsed: the parser never stores into a field of its current or next token (literal text would no longer be copied byte for byte)", 1)
+	tokenImmutableRule(r, "R9")
 }
 
 func topLevelWriteRule(r *Run, rule string) {
